@@ -120,7 +120,15 @@ def handleSt (st : DriverState) (line : String) : DriverState × String :=
     -- the registries as `VerifRegistry` reports them: operators sorted by name with priority and associativity, priority bytes
     let ops := (sortedBytes st.table.operations).map (fun op => s!"{hexOrDash op}:{st.table.prio op}:{if st.table.isRight op then 1 else 0}")
     let chars := (st.table.priorityChar.map (·.toNat)).toArray.qsort (· < ·)
-    (st, "ok " ++ ",".intercalate ops ++ " " ++ ",".intercalate (chars.toList.map toString))
+    let fs := (sortedBytes st.table.functions).map hexOrDash
+    let cs := (sortedBytes st.table.constants).map hexOrDash
+    (st, "ok " ++ ",".intercalate ops ++ " " ++ ",".intercalate (chars.toList.map toString) ++ " f:" ++ ",".intercalate fs ++ " c:" ++ ",".intercalate cs)
+  | ["regfn", x] => match fromHex x with
+    | some alias => ({ st with table := st.table.addFunction alias }, "ok")
+    | none => (st, "bad-hex")
+  | ["regconst", x] => match fromHex x with
+    | some alias => ({ st with table := st.table.addConstant alias }, "ok")
+    | none => (st, "bad-hex")
   | ["rpnu", x] => match fromHex x with
     | some bs => (st, match Cur.rpn st.table bs with
       | .ok toks => "ok " ++ ",".intercalate (toks.map hexOrDash)
